@@ -882,6 +882,10 @@ case("C19", "C19-m-openos", "mutant", "the interpreter is created without defaul
      edits=[("cmd/regbot/sandbox/sandbox.go", "\tls := lua.NewState()\n", "\tls := lua.NewState(lua.Options{SkipOpenLibs: true})\n\tlua.OpenOs(ls)\n")],
      expect=[("C19.R8", "New", "file-capable Lua libraries")])
 
+# found by the cross run of all stored variants against the round-6 rules
+case("C17", "C17-agent-C01-b2-4", "benign", "agent refactoring C01-b2-4 (external-URL fall-back of BlobGet as a counted loop testing the same error twice)", patch="selftest/variants/b2/C01-b2-4.diff")
+case("C17", "C17-agent-C11-b2-1", "benign", "agent refactoring C11-b2-1 (BlobGet / BlobHead fall-back restructured)", patch="selftest/variants/b2/C11-b2-1.diff")
+
 def main():
     bad = 0
     for pid, cases in CASES.items():
